@@ -135,3 +135,24 @@ Print Assumptions C13_remove_takes_one_entry.
 Print Assumptions C13_redis_invariant.
 Print Assumptions C13_redis_length.
 Print Assumptions C13_redis_new.
+
+(* Redis: Remove answers what Lookup answers, and a Remove that answers false leaves the store
+   untouched (every hash, every handle, every store) *)
+From GX.Proofs Require RedisExtras.
+Theorem C13_redis_remove_iff_lookup : forall h64 s h x,
+  match rck_lookup h64 s h x, rck_remove h64 s h x with
+  | Ok l, (Ok r, s') => l = r /\ (r = false -> s' = s)
+  | Panic t, (Panic t', s') => t = t' /\ s' = s
+  | Err t, (Err t', s') => t = t' /\ s' = s
+  | _, _ => False
+  end.
+Proof. exact RedisExtras.rck_remove_iff_lookup. Qed.
+Print Assumptions C13_redis_remove_iff_lookup.
+(* Redis: a consistent filter that holds no entry (Length back to 0) reports every element absent *)
+Theorem C13_redis_empty_all_absent : forall key meta size bsize fpl retries h64 s x fp i1 i2,
+  buckets_ok key size bsize s -> tot key size s = 0%nat ->
+  rck_positions h64 (hdl key meta size bsize fpl retries) x = Ok (fp, i1, i2) ->
+  fp <> [] -> i1 < size -> i2 < size -> 0 < size ->
+  rck_lookup h64 s (hdl key meta size bsize fpl retries) x = Ok false.
+Proof. exact RedisExtras.rck_empty_all_absent. Qed.
+Print Assumptions C13_redis_empty_all_absent.
